@@ -154,6 +154,12 @@ class Checker:
             find_matches('print(___)', 'zzz = 99 % 7\nprint(zzz)\nimport os\n')
         elif self.n % 7 == 0:
             parse_program('import json\nqq = [1] * 3\n')
+        elif self.n % 11 == 0:
+            # ... or about code that does not even parse (the answer about THAT code is empty; the submission's is not affected)
+            from pedal.cait.cait_api import find_asts
+            find_asts('For', student_code='for = = 1\n')
+        elif self.n % 13 == 0:
+            find_matches('print(___)', 'print(((1)\n')
 
     def thresholds(self, c):
         return sorted({0, 1, max(0, c - 1), c, c + 1})
